@@ -153,6 +153,18 @@ def prog(k: int, o1: int, t1: int, o2: int, t2: int, o3: int, t3: int, o4: int, 
                 tm.advance(1)
                 pc1.cg
                 p.d
+                if t >= 2:          # a second push/pop nested inside the first: each pop restores the state of its own push
+                    mid = [(getattr(x, '_Dynamic_time', None), getattr(x, '_Dynamic_last', None)) for x in (g, gcls)]
+                    p.param._state_push()
+                    pc1.param._state_push()
+                    tm.advance(1)
+                    pc1.cg
+                    p.d
+                    pc1.param._state_pop()
+                    p.param._state_pop()
+                    tm(t0 + 1)
+                    mid_ = [(getattr(x, '_Dynamic_time', None), getattr(x, '_Dynamic_last', None)) for x in (g, gcls)]
+                    check('C19.push_pop_restores', mid_ == mid, dict(info, compact=True, nested='inner pop', saved=repr(mid), now=repr(mid_)))
                 pc1.param._state_pop()
                 p.param._state_pop()
                 tm(t0)
@@ -225,4 +237,4 @@ def bounds(tier):
     return dict(program_length=3 if tier == 'quick' else 5, times='[0,3]', context_nesting=2,
                 opcodes=['set time', 'advance 1', 'read on instance 1', 'inspect_value', 'enter time context + set time', 'leave context',
                          '_state_push / _state_pop (alternating)', 'read on instance 2', 'leave context through StopIteration',
-                         'read the class, create an instance, read it for the first time', 'push; advance; read; pop (compact)'])
+                         'read the class, create an instance, read it for the first time', 'push; advance; read; [push; advance; read; pop;] pop (compact, optionally nested)'])
